@@ -726,6 +726,7 @@ def features(content):
         "ia_par_used": bool(iap & used),
         "ia_var": any("ia" in v for _, v in content["vars"]),
         "var_without_eq": any(k not in have for k, _ in content["vars"]),
+        "no_eq": len(have) == 0 and len(content["vars"]) > 0,
         "one_var": len(content["vars"]) == 1,
         "dyn_coef": any("c" not in c for _, r in content["rxns"] for _, c in r["st"]),
     }
